@@ -34,6 +34,7 @@ TRUSTED_BASE = [
     "Lean 4.33.0 kernel; axioms limited to propext, Classical.choice, Quot.sound (audited by #print axioms each run)",
     "hand-written Lean model of the structural core, tied to /repo by the differential correspondence suites of this run",
     "tools/translate.py (Python ast) regenerating the per-class fact tables from /repo's working tree",
+    "tools/py2lean.py (Python ast -> Lean do-blocks) regenerating Generated/Src.lean, its typing SPEC and the Python primitives of PvModel/Py.lean (slices, stable sort, unpacking, IndexError/ValueError/ZeroDivisionError, as_completed)",
     "harness canonicalisation (64-bit patterns, exception enum) and generators (distribution recorded in this file)",
     "numpy clip/argsort/average/dot and samplers, pydantic validation/copy, CPython stable sort, concurrent.futures, pandas rank/mean/std: modelled, not verified",
 ]
@@ -183,6 +184,13 @@ class Ctx:
                 self.broken.append("leanchecker rejects the compiled modules")
         self.extra["axioms"] = sorted({x for v in a["theorems"].values() for x in v})
         self.extra["modules"] = modules
+        src = self.facts.get("src", {})
+        self.extra["source_translation"] = {"translated_functions": src.get("translated", []), "untranslatable": src.get("untranslatable", {}),
+                                            "refinement_modules": [m for m in modules if re.search(r"\.R\d\d$", m)]}
+        failed_ref = [m for m in modules if m not in good and re.search(r"\.R\d\d$", m)]
+        if failed_ref:
+            self.extra["build_output_tail"] = self.extra.get("build_output_tail", "") + "\n--- refinement obligations (hand-written model = source translated by tools/py2lean.py) that no longer check: " \
+                + ", ".join(failed_ref) + "; untranslatable: " + json.dumps(src.get("untranslatable", {})) + "; diff of Generated/Src.lean against the committed copy shows the changed definitions ---\n"
         failed_tables = [m.rsplit(".", 1)[1] for m in modules if m not in good and m.rsplit(".", 1)[1].startswith("T")]
         if failed_tables:
             self.extra["table_culprits"] = table_culprits(self.facts, failed_tables)
